@@ -1,14 +1,19 @@
-"""C15 (and the variable-level part of C01) — queasars/utility/domain_wall_variables.py against
-coq/theories/Jssp/DomainWall.v.
+"""C15 (and, through specs/c01.py, the operator-level part of C01) — queasars/utility/domain_wall_variables.py and
+queasars/job_shop_scheduling/domain_wall_hamiltonian_encoder.py (function entries with `source=`) against
+coq/theories/Jssp/DomainWall.v and Encoder.v.  See the C15/C01 section of translator/README.md for the link statements.
 
-Data representation (trusted, same as the hand-written model):
-* a DomainWallVariable[int] is the record `dwvar` of DomainWall.v (the model also carries the operation and the
-  construction index, which no translated function reads).  What the constructor stores is read back through the record:
-  `_qubit_start_index` = v_start, `_values` = v_values, `_n_qubits` = len(values) - 1 = var_nq (the constructor rejects an
-  empty tuple), `_value_indices` = {value: position} = dw_value_indices (the constructor rejects duplicates, so "first
-  binding" and "last binding" coincide);
+Data representation (trusted; its Gallina definitions are PART 0 of coq/theories/Translate/C15Aux.v):
+* a DomainWallVariable[int] is the record `dwvar` of DomainWall.v.  What the constructor stores is read back through the
+  record: `_qubit_start_index` = v_start, `_values` = v_values, `_n_qubits` = var_nq, `_value_indices` = dw_value_indices
+  ({value: position}).  Not on trust: __init__ is translated and link_DWV_init proves it stores exactly these.  The
+  model's record also carries the operation and the construction index (v_op, v_id), which the Python object does not
+  have and no translated function reads: `DomainWallVariable(...)` inside the encoder is `mk_dwvar_py` (dummies, `ghost`),
+  the links supply them from the dict key;
 * a SparsePauliOp is the operator expression `opexpr` of Zpoly.v: scalar * op = OpScale, op - op = OpSub,
   a.compose(b) = OpMul, SparsePauliOp.sum = sum_ops (QiskitError on an empty list);
+* the assigned attributes of JSSPDomainWallHamiltonianEncoder are the record `encstate` (three dicts as association lists,
+  _n_qubits, _encoding_prepared); jssp_instance / makespan_limit are construction-time parameters; the Hamiltonian cache
+  and the five penalties appear only in the constructor's own record `encinit` (no translated method reads them); Machine / Operation / Job / instance as in C19;
 * NOT translated (mapped to the model, the link stops there): queasars.utility.pauli_strings.pauli_identity_string /
   pauli_z_string (they build Qiskit label strings) -> DomainWall.pauli_identity_string / pauli_z_string, with the circuit
   size read through Z.to_nat (a size < 1 is a ValueError on both sides) and a negative qubit index rejected first."""
@@ -25,11 +30,6 @@ DW_ATTRS = {
     ("DomainWallVariable", "_value_indices"): ("dw_value_indices {0}", Dict(Z, Z)),
 }
 
-DW_PREAMBLE = (
-    "(* data representation: the dict {value: position} the constructor builds from the (pairwise different) values *)\n"
-    "Definition dw_value_indices (v : dwvar) : list (Z * Z) := py_enumerate_swap (v_values v).\n"
-)
-
 OP_FUNCS = {
     "pauli_identity_string": dict(code="pauli_identity_string (Z.to_nat {n_qubits})", ty=OP, params=[("n_qubits", Z)], partial=True),
     "pauli_z_string": dict(code="pauli_z_string_Z {qubit_index} {n_qubits}", ty=OP, params=[("qubit_index", Z), ("n_qubits", Z)], partial=True),
@@ -42,34 +42,64 @@ OP_BINOPS = {
     ("Mult", "Z", "SparsePauliOp"): ("OpScale (inject_Z {0}) {1}", OP),
     ("Mult", "Q", "SparsePauliOp"): ("OpScale {0} {1}", OP),
     ("Sub", "SparsePauliOp", "SparsePauliOp"): ("OpSub {0} {1}", OP),
+    # int ** int with a non-literal exponent (spec idiom pow-nonneg-exponent)
+    ("Pow", "Z", "Z"): ("Z.pow {0} {1}", Z),
 }
-OP_PREAMBLE = (
-    "(* pauli_z_string on Python ints: `not 0 <= qubit_index < n_qubits` is a ValueError *)\n"
-    "Definition pauli_z_string_Z (q n : Z) : result opexpr :=\n"
-    "  if q <? 0 then Err ValueError else pauli_z_string (Z.to_nat q) (Z.to_nat n).\n"
-)
-
 SELF = ("self", "v", DWV)
+
+# ---------------------------------------------------------------- the encoder (second source file)
+ENC_SRC = "queasars/job_shop_scheduling/domain_wall_hamiltonian_encoder.py"
+Machine = Nom("Machine", "string", "String.eqb")
+Operation = Nom("Operation", "operation", "op_eqb")
+Job = Nom("Job", "job", "job_eqb")
+Instance = Nom("JobShopSchedulingProblemInstance", "instance")
+INSTANCE_ATTRS = {
+    ("Machine", "name"): ("{0}", STR),
+    ("Operation", "name"): ("op_name {0}", STR),
+    ("Operation", "job_name"): ("op_job {0}", STR),
+    ("Operation", "machine"): ("op_machine {0}", Machine),
+    ("Operation", "processing_duration"): ("op_dur {0}", Z),
+    ("Job", "name"): ("job_name {0}", STR),
+    ("Job", "operations"): ("job_ops {0}", List(Operation)),
+    ("JobShopSchedulingProblemInstance", "name"): ("inst_name {0}", STR),
+    ("JobShopSchedulingProblemInstance", "machines"): ("inst_machines {0}", List(Machine)),
+    ("JobShopSchedulingProblemInstance", "jobs"): ("inst_jobs {0}", List(Job)),
+}
+ENC_STATE = dict(var="st", ty=Nom("encstate", "encstate"), ctor="mkSt", fields=[
+    ("_machine_operations", "st_mo", Dict(Machine, List(Operation))),
+    ("_operation_start_variables", "st_vars", Dict(Operation, DWV)),
+    ("_operation_constraint_counts", "st_counts", Dict(Tup(Operation, Z), Z)),
+    ("_n_qubits", "st_nq", Z),
+    ("_encoding_prepared", "st_prepared", BOOL),
+])
+ENC_SELF = {"jssp_instance": ("I", Instance), "makespan_limit": ("L", Z)}
+ENC_EXTRA = [("I", Instance), ("L", Z)]
+PAIR = [("operation_1", "o1", Operation), ("operation_2", "o2", Operation)]
 
 SPEC = dict(
     id="C15",
     source="queasars/utility/domain_wall_variables.py",
     module="C15Gen",
     link="coq/link/C15Link.v",
-    imports=["From QV Require Import Jssp.DomainWall."],
-    coq_deps=["theories/Jssp/DomainWall_proofs.vo", "theories/Translate/C15Aux.vo"],
-    preamble=(
-        "(* {value: i for i, value in enumerate(values)} *)\n"
-        "Definition py_enumerate_swap (l : list Z) : list (Z * Z) := combine l (map Z.of_nat (seq 0 (List.length l))).\n"
-        + DW_PREAMBLE + OP_PREAMBLE
-    ),
-    reserved=["job", "operation", "instance", "schedule", "value", "values", "enc", "var_nq", "v"],
-    attrs=dict(DW_ATTRS),
+    imports=["From QV Require Import Jssp.DomainWall Translate.C15Aux."],
+    coq_deps=["theories/Jssp/DomainWall_proofs.vo", "theories/Jssp/Encoder.vo", "theories/Translate/C15Aux.vo"],
+    reserved=["job", "operation", "instance", "schedule", "value", "values", "enc", "var_nq", "v", "st"],
+    attrs={**DW_ATTRS, **INSTANCE_ATTRS},
     consts={"SparsePauliOp": ("tt", OPCLASS)},
-    funcs=dict(OP_FUNCS),
+    idioms={"pow-nonneg-exponent": "`a ** b` on ints with a non-literal exponent is Z.pow a b: exact for b >= 0 (the only exponents that occur: "
+                                   "makespan_limit and operation end times of an accepted encoding); for b < 0 Python yields a float, Z.pow yields 0"},
+    funcs={**OP_FUNCS,
+           # NOT translated here: DomainWallVariable.__init__ (mapped to the model's constructor mk_dwvar)
+           "DomainWallVariable": dict(code="mk_dwvar_py {qubit_start_index} {values}", ty=DWV,
+                                      params=[("qubit_start_index", Z), ("values", List(Z))], partial=True)},
     methods=dict(OP_METHODS),
     binops=dict(OP_BINOPS),
     functions=[
+        dict(py="DomainWallVariable.__init__", gen="DWV_init", kind="init",
+             params=[("qubit_start_index", "q", Z), ("values", "vals", List(Z))],
+             self_attrs={"_qubit_start_index": ("q", Z), "_values": ("vals", List(Z))},
+             state=dict(var="d", ty=Nom("dwcache", "dwcache"), ctor="mkDWC",
+                        fields=[("_value_indices", "dwc_idx", Dict(Z, Z)), ("_n_qubits", "dwc_nq", Z)])),
         dict(py="DomainWallVariable.values", gen="DWV_values", property=True, params=[SELF], returns=List(Z)),
         dict(py="DomainWallVariable.n_qubits", gen="DWV_n_qubits", property=True, params=[SELF], returns=Z),
         dict(py="DomainWallVariable._z_dash_term", gen="DWV_z_dash_term",
@@ -80,5 +110,32 @@ SPEC = dict(
              params=[SELF, ("value", "t", Z), ("quantum_circuit_n_qubits", "nq", Z)], returns=OP),
         dict(py="DomainWallVariable.value_from_bitlist", gen="DWV_value_from_bitlist",
              params=[SELF, ("bit_list", "bl", List(Z))], returns=Opt(Z)),
+        dict(py="JSSPDomainWallHamiltonianEncoder.__init__", source=ENC_SRC, gen="Enc_init", kind="init",
+             params=[("jssp_instance", "I", Instance), ("makespan_limit", "L", Z), ("encoding_penalty", "p_enc", Q),
+                     ("overlap_constraint_penalty", "p_ov", Q), ("precedence_constraint_penalty", "p_prec", Q),
+                     ("max_opt_value", "p_opt", Q), ("opt_all_operations_share", "p_share", Q)],
+             self_attrs=ENC_SELF,
+             # its own state record: EVERY attribute the constructor assigns (the other methods use the 5-field encstate)
+             state=dict(var="ei", ty=Nom("encinit", "encinit"), ctor="mkInit", fields=[
+                 ("_encoding_prepared", "ei_prepared", BOOL), ("_hamiltonian_prepared", "ei_ham_prepared", BOOL),
+                 ("_machine_operations", "ei_mo", Dict(Machine, List(Operation))),
+                 ("_operation_start_variables", "ei_vars", Dict(Operation, DWV)),
+                 ("_operation_constraint_counts", "ei_counts", Dict(Tup(Operation, Z), Z)),
+                 ("_n_qubits", "ei_nq", Z), ("_hamiltonian", "ei_ham", Opt(OP)),
+                 ("_encoding_penalty", "ei_p_enc", Q), ("_overlap_constraint_penalty", "ei_p_overlap", Q),
+                 ("_precedence_constraint_penalty", "ei_p_prec", Q), ("_max_opt_value", "ei_p_opt", Q),
+                 ("_opt_all_operations_share", "ei_p_share", Q)])),
+        dict(py="JSSPDomainWallHamiltonianEncoder.translate_result_bitstring.translate", source=ENC_SRC, gen="Enc_translate_char",
+             params=[("string", "s", STR)], returns=Z),
+        dict(py="JSSPDomainWallHamiltonianEncoder._prepare_encoding", source=ENC_SRC, gen="Enc_prepare_encoding",
+             params=[], extra_params=ENC_EXTRA, self_attrs=ENC_SELF, state=ENC_STATE, returns=UNIT),
+        dict(py="JSSPDomainWallHamiltonianEncoder.n_qubits", source=ENC_SRC, gen="Enc_n_qubits", property=True,
+             params=[], extra_params=ENC_EXTRA, self_attrs=ENC_SELF, state=ENC_STATE, returns=Z),
+        dict(py="JSSPDomainWallHamiltonianEncoder._makespan_optimization_term", source=ENC_SRC, gen="Enc_makespan_term",
+             params=[], extra_params=ENC_EXTRA, self_attrs=ENC_SELF, state=ENC_STATE, returns=OP, locals={"local_terms": List(OP)}),
+        dict(py="JSSPDomainWallHamiltonianEncoder._operation_precedence_term", source=ENC_SRC, gen="Enc_precedence_term",
+             params=PAIR, state=ENC_STATE, returns=OP, locals={"local_terms": List(OP)}),
+        dict(py="JSSPDomainWallHamiltonianEncoder._operation_overlap_term", source=ENC_SRC, gen="Enc_overlap_term",
+             params=PAIR, state=ENC_STATE, returns=OP, locals={"local_terms": List(OP)}),
     ],
 )
